@@ -19,7 +19,7 @@ ASSUMPTIONS = ['patterns with literal `.`/`..` segments or SCANDOTDIR are not ju
                'patterns whose first segment is a globstar are undecided for the rglob/match clauses (K5/K17 zone)',
                'WindowsPath cannot be instantiated on Linux; Windows behaviour only through PureWindowsPath']
 
-CFG_KEYS = ['globstar', 'dot', 'follow', 'globstarlong', 'nodir', 'scandotdir', 'nounique']
+CFG_KEYS = ['globstar', 'dot', 'follow', 'globstarlong', 'nodir', 'scandotdir', 'nounique', 'nodir']
 
 
 def shards(tier, seed, scale=1.0):
@@ -129,9 +129,18 @@ def check_case(root, spec, pp, cfg, out, armed, excl=None):
                     return
                 conc = rp / rel
                 with util.chdir(root):
-                    c1 = WP.Path(rel).globmatch(text, flags=fl)
-                    c2 = G.globmatch(rel + ('/' if isd else ''), text, flags=fl | G.FORCEUNIX)
+                    c1 = WP.Path(rel).globmatch(text, flags=fl, **xkw)
+                    c2 = G.globmatch(rel + ('/' if isd else ''), text, flags=fl | G.FORCEUNIX, **xkw)
+                    c3 = WP.Path(rel).full_match(text, flags=fl, **xkw)
+                    nofl = fl & ~G.REALPATH
+                    c4 = WP.Path(rel).full_match(text, flags=nofl, **xkw)
+                    c5 = G.globmatch(rel + ('/' if isd else ''), text, flags=nofl | G.FORCEUNIX, **xkw)
+                    c6 = WP.Path(rel).globmatch(text, flags=nofl, **xkw)
                 out.evaluations += 1
+                if bool(c3) != bool(c2) or bool(c4) != bool(c5) or bool(c6) != bool(c5):
+                    out.violation(dict(case, problem='Path.full_match / globmatch differs from glob.globmatch on the path string (+ separator for a directory)',
+                                       name=rel, impl=[bool(c3), bool(c4), bool(c6)], want=[bool(c2), bool(c5), bool(c5)]), bucket=('concrete-full',))
+                    return
                 if bool(c1) != bool(c2):
                     out.violation(dict(case, problem='Path.globmatch differs from glob.globmatch on the path string (+ separator for a directory)',
                                        name=rel, impl=bool(c1), want=bool(c2)), bucket=('concrete',))
